@@ -21,13 +21,17 @@ def r1(ctx, prog):
     ctx.check(R, ok, f.where(), "loop bound covers bins 0..%d" % full, key="C12.R1:bound")
     calls = [c for c in f.all(kind="CallExpr") if f.nodes[c].get("callee") is None and rl.var_of(f, f.nodes[c]["fn"]) == f.param_id(1)]
     ctx.check(R, len(calls) == 1, f.where(), "one indirect call through the page-visitor parameter", key="C12.R1:call")
-    nexts = [dd["d"] for _, dd in rl.var_init_from(f, lambda j: rl.field_is(f, j, "next"))]
+    # the local(s) that save page->next: defined (by initialiser or by assignment) from a `->next` read
+    saves = [(a, d_) for d_ in {n["d"] for n in f.nodes if n["k"] == "DeclRefExpr" and n.get("dk") == "local"} for a, rhs, op in f.var_defs(d_)
+             if rhs is not None and op in ("=", "decl") and rl.field_is(f, rhs, "next")]
+    nexts = [d_ for a, d_ in saves]
+    is_save = lambda e: any(e == a for a, d_ in saves)
     for c in calls:
-        w = rl.precedes(f, lambda e: f.nodes[e]["k"] == "DeclStmt" and any(dd["d"] in nexts for dd in f.nodes[e]["decls"]), c,
-                        starts=[p for p in [f.cfg.pt(L["node"]) for L in f.loops() if not any(L["node"] == cl["loop"] for cl in rl.counted_loops(f))] if p])
         pg = rl.var_of(f, f.nodes[c]["args"][2])
         adv = [a for a, rhs, op in f.var_defs(pg) if op == "=" and rhs is not None and rl.var_of(f, rhs) in nexts] if pg is not None else []
-        ok = bool(nexts) and bool(adv) and f.cfg.must_pass([f.cfg.after(adv[0])] if adv else [f.cfg.entry], [f.cfg.pt(c)], lambda e: f.nodes[e]["k"] == "DeclStmt" and any(dd["d"] in nexts for dd in f.nodes[e]["decls"])) is None
+        # since the page variable last changed (loop entry or the advance), the save happens before the callback
+        pdefs = [a for a, rhs, op in f.var_defs(pg) if op in ("=", "decl")] if pg is not None else []
+        ok = bool(nexts) and bool(adv) and f.cfg.must_pass([f.cfg.after(a) for a in pdefs], [f.cfg.pt(c)], is_save) is None
         ctx.check(R, ok, f.where(c), "page->next is saved in a local before each callback and the walk continues from it", key="C12.R1:next")
         # no read of page-> after the callback
         if pg is not None:
